@@ -39,6 +39,10 @@ func init() {
 			dirCacheStorm(r, 4*time.Second)
 			return
 		}
+		if len(rp.Ops) > 0 && rp.Ops[0] == "minimal-ttl-storm" {
+			minimalTTLStorm(r, 4*time.Second)
+			return
+		}
 		if len(rp.Ops) > 0 && rp.Ops[0] == "completed-writes-then-read" {
 			completedWritesThenRead(r, rand.New(rand.NewSource(7)), 3000)
 			return
